@@ -350,6 +350,11 @@ def plan_case(rng, out, vendor):
                 m.domains.sync = ClockDomain("sync")
                 ctr = Signal(8)
                 m.d.sync += ctr.eq(ctr + 1)
+                # a clock constraint on a signal created during elaboration (a divider output): the constraint
+                # file names it through the design's hierarchy
+                slow = Signal(name="slow_clk")
+                m.d.sync += slow.eq(ctr[3])
+                platform.add_clock_constraint(slow, 1e6)
                 k = 0
                 for r in use:
                     port = platform.request(r["name"], r["number"], dir="-")
@@ -376,12 +381,19 @@ def plan_case(rng, out, vendor):
     cfg["clock_shift_s"] = shift
     try:
         p1 = make_plan()
+    except Exception as ex:
+        if exc_origin(ex) != "repo":
+            raise
+        out["hist"]["plan-exception:" + type(ex).__name__] = out["hist"].get("plan-exception:" + type(ex).__name__, 0) + 1
+        return
+    try:
         with shifted_clock(shift):
             p2 = make_plan()
     except Exception as ex:
         if exc_origin(ex) != "repo":
             raise
-        out["hist"]["plan-exception:" + type(ex).__name__] = out["hist"].get("plan-exception:" + type(ex).__name__, 0) + 1
+        out["violations"].append({"mechanism": "second-preparation-of-the-same-plan-raises:" + type(ex).__name__,
+                                  "detail": dict(cfg, exception=repr(ex)[:300])})
         return
     out["evaluations"] += 1
     out["extra"]["plans"] += 1
